@@ -160,6 +160,25 @@ EmitObs == PrintT("OBS " \o ToJson(Obs))
 Emit == PrintT("EMIT " \o ToJson([m |-> mi, f |-> ElementId(cls), g |-> last', t |-> ElementId(cls')]))
 
 (***************************************************************************)
+(* How a Coxeter matrix reaches the library (bound universe of the         *)
+(* conformance harness).  The abstract group does not depend on any of it: *)
+(*   namings   - names of the generators: letters, letter+digits, or (the  *)
+(*               diagram route accepts any hashable object) small integers *)
+(*   orders    - order in which the names first appear in a diagram:       *)
+(*               alphabetical, reverse alphabetical, neither; the entry    *)
+(*               (i, j) of the group's Coxeter matrix is the label of the  *)
+(*               pair (ordered_gens[i], ordered_gens[j])                   *)
+(*   histories - the group is determined when the constructor returns:     *)
+(*               the caller may afterwards overwrite its own array / list  *)
+(*               (e.g. with the next matrix of a sweep) and query the      *)
+(*               earlier group                                             *)
+(***************************************************************************)
+Namings == {"alpha", "alphanum", "int"}
+NameOrders == {"sorted", "reversed", "mixed"}
+Histories == {"query", "edit_input_then_query"}
+ASSUME PrintT("VAR " \o ToJson([namings |-> Namings, orders |-> NameOrders, histories |-> Histories]))
+
+(***************************************************************************)
 (* Growth series of known groups (constant level)                          *)
 (***************************************************************************)
 RECURSIVE Level(_, _)
